@@ -27,8 +27,66 @@ class V(object):
     def __repr__(self):
         return "%s%d" % (self.tag, self.i)
 
-    def __lt__(self, other):
-        return self.i < other.i
+
+class EV(V):
+    """A vertex compared by value: separately created equal objects name the
+    same vertex (as strings or tuples used as vertices do)."""
+    __slots__ = ()
+
+    def __eq__(self, other):
+        return isinstance(other, EV) and other.i == self.i
+
+    def __ne__(self, other):
+        return not self.__eq__(other)
+
+    def __hash__(self):
+        return self.i * 7919 + 13
+
+
+class CV(V):
+    """Vertices whose hashes all collide (legal, merely slow)."""
+    __slots__ = ()
+
+    def __hash__(self):
+        return 42
+
+
+# what the caller uses as vertices (vertices are "any hashable object"; none
+# of these can be ordered against all the others)
+VKINDS = ["obj", "int", "tuple", "eq", "mixed", "samehash"]
+
+
+def vid(v):
+    """Index of a generated vertex, whatever its type."""
+    if isinstance(v, V):
+        return v.i
+    if isinstance(v, tuple):
+        return v[1]
+    return v
+
+
+def make_vertex(kind, i):
+    if kind == "mixed":
+        kind = ["obj", "int", "tuple", "eq"][i % 4]
+    if kind == "int":
+        return i
+    if kind == "tuple":
+        return (7, i)
+    if kind == "eq":
+        return EV(i)
+    if kind == "samehash":
+        return CV(i)
+    return V(i)
+
+
+def alias(v):
+    """The same vertex as the caller might name it elsewhere: an equal but
+    separately created object where the type compares by value."""
+    if isinstance(v, EV):
+        return EV(v.i)
+    if isinstance(v, tuple):
+        return tuple(list(v))
+    return v
 
 
 _net_cls = {}
@@ -61,7 +119,9 @@ def net_class():
 
 
 class Graph(object):
-    def __init__(self):
+    def __init__(self, t=None):
+        self.vkind = "obj" if t is None else \
+            VKINDS[t.weighted([10, 2, 2, 3, 2, 1])]
         self.vertices_resources = collections.OrderedDict()
         self.nets = []
         self.net_keys = collections.OrderedDict()
@@ -72,15 +132,16 @@ class Graph(object):
         self.sdram_max = 2000
 
     def describe(self):
-        return "%d vertices, %d nets, %d location, %d same-chip groups, %d " \
-            "endpoints" % (len(self.vertices_resources), len(self.nets),
+        return "%d vertices (%s), %d nets, %d location, %d same-chip groups, %d " \
+            "endpoints" % (len(self.vertices_resources), self.vkind,
+                           len(self.nets),
                            len(self.located), len(self.same_chip),
                            len(self.endpoints))
 
 
 def new_vertex(t, g, par, kind=None, sdram_max=2000):
     i = len(g.vertices_resources)
-    v = V(i)
+    v = make_vertex(g.vkind, i)
     k = t.weighted([10, 2, 2, 1, 1] if sdram_max > 100 else [6, 1, 8, 1, 1]) \
         if kind is None else kind
     res = collections.OrderedDict()
@@ -111,7 +172,8 @@ def add_net(t, g, par, max_fanout=12):
             v = new_vertex(t, g, par, sdram_max=g.sdram_max)
             vs.append(v)
             return v
-        return vs[t.draw(len(vs))]
+        v = vs[t.draw(len(vs))]
+        return alias(v) if g.vkind in ("eq", "tuple", "mixed") else v
     src = pick(0.5)
     fan = t.draw_small(max_fanout + 1, 0.6)
     sinks = [pick(0.5) for _ in range(fan)]
